@@ -22,6 +22,7 @@ import (
 	"runtime"
 	"strconv"
 	"sync"
+	"sync/atomic"
 	"time"
 
 	"github.com/facebookincubator/dns/dnsrocks/db"
@@ -63,6 +64,9 @@ type world struct {
 	events   [][2]int
 	egid     []uint64 // goroutine that made the call, per event
 	r        *runner  // the history that owns this world (hook points)
+	trig     *int32   // race-rel: set to 1 when FreeContext is called on backend trigBk
+	trigBk   int
+	fastgid  bool // race-rel: only Close calls look up their goroutine (keeps the other calls short)
 	nextID   int
 	uac, dc  int
 	probing  bool
@@ -130,10 +134,26 @@ func (f *fakeDB) recLocked(op int) {
 		f.w.uac++
 	}
 	f.w.events = append(f.w.events, [2]int{f.id, op})
-	f.w.egid = append(f.w.egid, gid())
+	g := uint64(0)
+	if !f.w.fastgid || op == evClose {
+		g = gid()
+	}
+	f.w.egid = append(f.w.egid, g)
 }
 
-func (f *fakeDB) NewContext() db.Context { f.rec(evNewContext); return &fakeCtx{} }
+func (f *fakeDB) NewContext() db.Context {
+	f.w.mu.Lock()
+	f.recLocked(evNewContext)
+	trig := f.w.trig
+	if trig != nil && f.w.trigBk != f.id {
+		trig = nil
+	}
+	f.w.mu.Unlock()
+	if trig != nil { // race-rel: the validation of the candidate has begun
+		atomic.StoreInt32(trig, 1)
+	}
+	return &fakeCtx{}
+}
 func (f *fakeDB) FreeContext(db.Context) { f.rec(evFreeContext) }
 func (f *fakeDB) Find(key []byte, c db.Context) ([]byte, error) {
 	f.rec(evFind)
@@ -266,6 +286,7 @@ type caseOut struct {
 	Steps []stepOut `json:"steps"`
 	Note  string    `json:"note,omitempty"`
 	Tmo   int       `json:"tmo,omitempty"` // ReloadTimeout of the handler in ms (0: the default)
+	Mult  int       `json:"mult,omitempty"` // race-rel: iterations with exactly this observation
 }
 
 // tracker is the harness' own view of which operations are enabled.
@@ -296,6 +317,8 @@ func (t *tracker) ok(o gop, weak bool) bool {
 			return false
 		}
 		return t.ok(*o.X, weak) // a reload does not change what is enabled
+	case "racerel":
+		return o.X != nil && t.held[o.R] && t.ok(*o.X, weak)
 	case "late":
 		return o.I < t.npend
 	case "shutdown":
@@ -320,6 +343,9 @@ func (t *tracker) apply(o gop) {
 	case "shutdown":
 		t.shut = true
 	case "reloadx":
+		t.apply(*o.X)
+	case "racerel":
+		delete(t.held, o.R)
 		t.apply(*o.X)
 	}
 }
@@ -456,6 +482,155 @@ func (r *runner) takeEventsG() ([][2]int, []uint64, int) {
 func (r *runner) observePartial(o gop, res int, events [][2]int, uac, dc int) {
 	r.out.Steps = append(r.out.Steps, stepOut{Op: o, Events: events, Res: res, Refs: [][3]int{}, Pins: [][2]int{},
 		Uac: uac, Dc: dc, Partial: true})
+}
+
+func spinFor(d time.Duration) {
+	if d <= 0 {
+		return
+	}
+	for end := time.Now().Add(d); time.Now().Before(end); {
+	}
+}
+
+// skewEst homes in on the start skew at which the two critical sections collide: the delay
+// of the release is raised when the release came first and lowered when it came second.
+type skewEst struct {
+	mu   sync.Mutex
+	d    float64 // ns
+	step float64
+}
+
+var skewEsts = [2]*skewEst{{d: 3000, step: 400}, {d: 6000, step: 800}}
+
+func (e *skewEst) get(jitter int) time.Duration {
+	e.mu.Lock()
+	defer e.mu.Unlock()
+	d := e.d + float64(jitter)
+	if d < 0 {
+		d = 0
+	}
+	return time.Duration(d)
+}
+
+func (e *skewEst) feed(relFirst bool) {
+	e.mu.Lock()
+	defer e.mu.Unlock()
+	if relFirst {
+		e.d += e.step
+	} else {
+		e.d -= e.step
+	}
+	if e.d < 0 {
+		e.d = 0
+	}
+	if e.d > 200000 {
+		e.d = 200000
+	}
+	if e.step > 10 {
+		e.step *= 0.97
+	}
+}
+
+// doRaceRel: Reader.Close of the reader in slot o.R and the operation o.X (a reload that
+// retires the reader's backend, or shutdown) run freely in two goroutines.  The release is
+// started by a spinning flag: for a reload when the validation of its candidate begins (a few
+// backend calls before f.Destroy()), for shutdown together with it; then it waits for a
+// start skew that follows the observed outcomes (skewEst) plus the jitter o.I (ns), so that
+// the sweep concentrates where the two DB.l critical sections meet.  Nothing is forced: the
+// resolved history is read off the events.  The two critical sections (Destroy, and the
+// locked tail of DataReader.Close) are ordered by who had to close the backend: the one
+// that came second.  Events are attributed to the two operations by goroutine.
+func (r *runner) doRaceRel(o gop) {
+	x := *o.X
+	h := r.readers[o.R]
+	var xsc *script
+	var goA, goB, ready int32
+	est := skewEsts[1]
+	r.w.mu.Lock()
+	r.w.fastgid = true
+	r.w.mu.Unlock()
+	if x.K == "reload" {
+		est = skewEsts[0]
+		xsc = &script{cand: x.C, key: x.Key, done: make(chan struct{})}
+		r.w.mu.Lock()
+		r.w.scripts = append(r.w.scripts, xsc)
+		r.w.trig, r.w.trigBk = &goA, r.w.nextID
+		r.w.mu.Unlock()
+	}
+	dA := est.get(o.I)
+	var gidA uint64
+	resX := 0
+	doneA, doneB := make(chan struct{}), make(chan struct{})
+	go func() {
+		gidA = gid()
+		atomic.AddInt32(&ready, 1)
+		for atomic.LoadInt32(&goA) == 0 {
+		}
+		spinFor(dA)
+		h.rd.Close()
+		close(doneA)
+	}()
+	go func() {
+		atomic.AddInt32(&ready, 1)
+		for atomic.LoadInt32(&goB) == 0 {
+		}
+		switch x.K {
+		case "reload":
+			resX = errClass(r.fb.Reload(r.signal(x.C)))
+		case "shutdown":
+			r.fb.Close()
+		}
+		atomic.StoreInt32(&goA, 1) // in case the trigger was never reached
+		close(doneB)
+	}()
+	for atomic.LoadInt32(&ready) < 2 {
+		runtime.Gosched()
+	}
+	if x.K != "reload" {
+		atomic.StoreInt32(&goA, 1)
+	}
+	atomic.StoreInt32(&goB, 1)
+	<-doneA
+	<-doneB
+	r.w.mu.Lock()
+	r.w.trig = nil
+	r.w.fastgid = false
+	r.w.mu.Unlock()
+	if xsc != nil {
+		waitCh(xsc.done, 2*time.Second)
+		if resX != expectedRes(x) {
+			r.retry = true
+		}
+	}
+	delete(r.readers, o.R)
+	evs, gids, _ := r.takeEventsG()
+	re, xe := [][2]int{}, [][2]int{}
+	closer := uint64(0)
+	for i := range evs {
+		// the release makes two kinds of calls, both on the backend it pins: FreeContext (the
+		// other operation never frees a context of that backend) and possibly Close (by goroutine)
+		if evs[i][0] == h.bk && (evs[i][1] == evFreeContext || (evs[i][1] == evClose && gids[i] == gidA)) {
+			re = append(re, evs[i])
+		} else {
+			xe = append(xe, evs[i])
+		}
+		if evs[i][0] == h.bk && evs[i][1] == evClose && closer == 0 {
+			closer = gids[i]
+		}
+	}
+	r.w.mu.Lock()
+	uac, dc := r.w.uac, r.w.dc
+	r.w.mu.Unlock()
+	relOp := gop{K: "rel", R: o.R}
+	est.feed(closer != gidA)
+	r.out.Note += fmt.Sprintf("skew %dns;", dA.Nanoseconds())
+	if closer == gidA { // the release came second: it found the wrapper destroyable
+		r.observePartial(x, resX, xe, uac, dc)
+		r.observe(relOp, 0, re)
+	} else {
+		r.observePartial(relOp, 0, re, uac, dc)
+		r.observe(x, resX, xe)
+	}
 }
 
 // doReloadX: a reload during which x is attempted from another goroutine at a hook point.
@@ -670,6 +845,8 @@ func (r *runner) do(o gop) {
 		r.observe(o, 0, ev)
 	case "reloadx":
 		r.doReloadX(o)
+	case "racerel":
+		r.doRaceRel(o)
 	case "use":
 		r.readers[o.R].rd.ForEach(append([]byte{}, validationKey...), func([]byte) error { return nil })
 		r.observe(o, 0, r.takeEvents())
@@ -948,6 +1125,91 @@ func runAll(jobs []job, e *hlib.Emitter, par int) {
 	}
 }
 
+// runRaceRel runs the free-running release races and emits every DISTINCT observation once
+// (identical observations are identical Coq cases; Mult counts them).  The start skew and
+// the note are not part of an observation.
+func runRaceRel(jobs []job, e *hlib.Emitter) {
+	res := make([]caseOut, len(jobs))
+	var wg sync.WaitGroup
+	sem := make(chan struct{}, 6)
+	for i := range jobs {
+		wg.Add(1)
+		sem <- struct{}{}
+		go func(i int) {
+			defer wg.Done()
+			defer func() { <-sem }()
+			res[i] = runHistory(jobs[i].class, jobs[i].gen, jobs[i].tmo)
+		}(i)
+	}
+	wg.Wait()
+	seen := map[string]int{}
+	var order []int
+	for i := range res {
+		c := res[i]
+		c.Note = ""
+		g := make([]gop, len(c.Gen))
+		copy(g, c.Gen)
+		for k := range g {
+			if g[k].K == "racerel" {
+				g[k].I = 0
+			}
+		}
+		c.Gen = g
+		b, _ := json.Marshal(c)
+		if j, ok := seen[string(b)]; ok {
+			res[j].Mult++
+			continue
+		}
+		seen[string(b)] = i
+		res[i].Mult = 1
+		order = append(order, i)
+	}
+	for _, i := range order {
+		res[i].Note += "free-running race: a replay runs the race again (many times) and may not reproduce; the observed events are in steps;"
+		e.Emit(res[i])
+	}
+}
+
+func replayRaceRel(gen []gop) caseOut {
+	const rounds, per = 12, 1000
+	rng := hlib.NewRng(1, 9)
+	var first *caseOut
+	for round := 0; round < rounds; round++ {
+		res := make([]caseOut, per)
+		var wg sync.WaitGroup
+		sem := make(chan struct{}, 6)
+		for i := 0; i < per; i++ {
+			g := make([]gop, len(gen))
+			copy(g, gen)
+			for k := range g {
+				if g[k].K == "racerel" {
+					g[k].I = rng.Intn(241) - 120
+				}
+			}
+			wg.Add(1)
+			sem <- struct{}{}
+			go func(i int, g []gop) {
+				defer wg.Done()
+				defer func() { <-sem }()
+				res[i] = runHistory("race-rel", g, 0)
+			}(i, g)
+		}
+		wg.Wait()
+		for i := range res {
+			if first == nil {
+				c := res[i]
+				first = &c
+			}
+			if n := len(res[i].Steps); n > 0 && (res[i].Steps[n-1].Uac > 0 || res[i].Steps[n-1].Dc > 0) {
+				res[i].Note += fmt.Sprintf("reproduced in replay iteration %d;", round*per+i)
+				return res[i]
+			}
+		}
+	}
+	first.Note += fmt.Sprintf("not reproduced in %d replay iterations;", rounds*per)
+	return *first
+}
+
 func run(a *hlib.Args, e *hlib.Emitter) error {
 	if a.Scratch != "" { // glog output of the code under test goes to files in the scratch directory
 		flag.Set("logtostderr", "false")
@@ -968,6 +1230,13 @@ func run(a *hlib.Args, e *hlib.Emitter) error {
 			if err := json.Unmarshal(m["gen"], &gen); err != nil {
 				return err
 			}
+			if class == "race-rel" {
+				// a free-running race cannot be replayed step by step: run it again, many times,
+				// and report the first iteration in which a backend saw a call after Close or a
+				// second Close (otherwise the first iteration)
+				e.Emit(replayRaceRel(gen))
+				continue
+			}
 			jobs = append(jobs, job{class, gen, tmo})
 		}
 		runAll(jobs, e, 4)
@@ -981,6 +1250,10 @@ func run(a *hlib.Args, e *hlib.Emitter) error {
 		{"inflight", []gop{{K: "tfirst"}, {K: "shutdown"}, {K: "late", C: "new", Key: true}}, 0}}
 	if a.Extra == "inflight" {
 		runAll(inflight, e, 4)
+		return nil
+	}
+	if a.Extra == "racerel" { // only the free-running release races
+		runRaceRel(raceRelJobs(hlib.NewRng(a.Seed, 8), a.N), e)
 		return nil
 	}
 	if a.Extra == "intr" { // only the histories with operations attempted inside a reload
@@ -1024,7 +1297,37 @@ func run(a *hlib.Args, e *hlib.Emitter) error {
 		jobs = append(jobs, job{"race", pre, 0})
 	}
 	runAll(jobs, e, 3) // the race attempts busy-wait: keep them away from each other
+	nrr := 30 * a.N
+	if a.Tier == "thorough" {
+		nrr = 8 * a.N
+	}
+	runRaceRel(raceRelJobs(hlib.NewRng(a.Seed, 8), nrr), e)
 	return nil
+}
+
+// raceRelJobs: a reader is held on the served backend; its release and the operation that
+// retires that backend (reload to a new backend, or shutdown) start together and run freely.
+func raceRelJobs(r *hlib.Rng, n int) []job {
+	var jobs []job
+	for i := 0; i < n; i++ {
+		var h []gop
+		switch r.Pick([]int{5, 2, 2}) {
+		case 0:
+			h = []gop{{K: "acq", R: 0}}
+		case 1:
+			h = []gop{{K: "reload", C: "new", Key: true}, {K: "acq", R: 0}}
+		default:
+			h = []gop{{K: "acq", R: 0}, {K: "acq", R: 1}, {K: "use", R: 0}, {K: "rel", R: 1}}
+		}
+		x := gop{K: "reload", C: "new", Key: true}
+		if r.Chance(1, 4) {
+			x = gop{K: "shutdown"}
+		}
+		skew := r.Intn(241) - 120 // jitter in ns around the adaptive start skew
+		h = append(h, gop{K: "racerel", R: 0, X: &x, I: skew})
+		jobs = append(jobs, job{"race-rel", h, 0})
+	}
+	return jobs
 }
 
 // intrusionJobs: histories in which an operation is attempted from another goroutine while a
